@@ -18,11 +18,13 @@ from sim.core import RunResult
 ID = "C18"
 TIERS = {"quick": 20000, "thorough": 300000}
 RULE = (
-    "each run = one seeded configuration (board 1x1..5x5, min/max block count and size each possibly unset and drawn around a "
-    "feasible target partition, initial_blocks absent / the target / another full partition, allow_unmet_constraints_first on/off, "
-    "Python-random or deterministic PRNG) and a walk of <=40 steps; at every step up to 48 proposed updates are applied to the "
-    "current value (breadth) and one, chosen by the scenario, becomes the next value (depth); non-trivial = the walk applied at "
-    "least one merge, one split and one move; distinct = distinct event-log SHA-256"
+    "each run = one seeded configuration (board 1x1..5x5; 30% crafted initial partitions - rings with a hole, boustrophedon "
+    "snakes, spirals, combs, stripes - on boards up to 8x8, some with tight bounds min=max; thorough ramp: boards up to 8x8 "
+    "with walks of 80 steps; min/max block count and size each possibly unset and drawn around a feasible target partition, "
+    "initial_blocks absent / the target / another full partition, allow_unmet_constraints_first on/off, Python-random or "
+    "deterministic PRNG) and a walk of <=40 steps; at every step up to 48 proposed updates are applied to the current value "
+    "(breadth) and one, chosen by the scenario, becomes the next value (depth); non-trivial = the walk applied at least one "
+    "merge, one split and one move; distinct = distinct event-log SHA-256"
 )
 STATE_MEASURE = "distinct canonical partitions (sorted blocks of sorted cells) reached, per board size"
 COMPONENTS = {
